@@ -222,7 +222,7 @@ func runC01(h *H) {
 	imports := []string{"From GoImap.Base Require Import Bytes.", "From GoImap.Model Require Import NumSet Utf7 Wire WireCorr."}
 	encCorr := h.NewCorr("encode", imports, "wenc_mismatches", 1500).Type("wenc_case")
 	decCorr := h.NewCorr("decode", imports, "wdec_mismatches", 2500).Type("wdec_case")
-	h.Rule("every Encoder primitive (String, Quoted, Mailbox, NumSet, Flag, MailboxAttr, Number, Number64, nested List) under all 8 mode combinations x 2 sides x continuation {absent, granted, cancelled}: strings over {NUL,CR,LF,\",\\,SP,a,0x80,e-acute,0xFF} exhaustively to the tier's length, lengths 4094..4099, random; mailbox names incl. every case variant of INBOX and names of 120..1000 bytes whose non-ASCII runs straddle the UTF-7 transformer's 128-byte chunks; flags/attributes over atom and non-atom characters; numbers at 0, 2^32-1, 2^63-1, negative; number sets from the C15 generator; nestings 0..3 and 997..1001. Each accepted output is decoded by the peer's real Decoder with four different trailers (oracle: same value modulo INBOX/flag canonicalisation, exactly the written bytes consumed) and by the model; every Decoder method is additionally run on mutated outputs and on garbage. Non-trivial = the value needed escaping, a literal, UTF-7, canonicalisation or was refused; distinct by (config, kind, value).")
+	h.Rule("every Encoder primitive (String, Quoted, Mailbox, NumSet, Flag, MailboxAttr, Number, Number64, nested List) under all 8 mode combinations x 2 sides x continuation {absent, granted, cancelled}: strings over {NUL,CR,LF,\",\\,SP,a,0x80,e-acute,0xFF} exhaustively to the tier's length, lengths 4094..4099, random; mailbox names incl. every case variant of INBOX and names of 120..1000 bytes whose non-ASCII runs straddle the UTF-7 transformer's 128-byte chunks; flags/attributes over atom and non-atom characters; numbers at 0, 2^32-1, 2^63-1, negative; number sets from the C15 generator; nestings 0..3 and 997..1001, also with empty lists at every level. Each accepted output is decoded by the peer's real Decoder with four different trailers (oracle: same value modulo INBOX/flag canonicalisation, exactly the written bytes consumed) and by the model; every Decoder method is additionally run on mutated outputs and on garbage. Non-trivial = the value needed escaping, a literal, UTF-7, canonicalisation or was refused; distinct by (config, kind, value).")
 
 	var cfgs []wcfg
 	for m := 0; m < 8; m++ {
@@ -507,6 +507,27 @@ func runC01(h *H) {
 	for _, d := range []int{997, 998, 999, 1000, 1001} {
 		valCase(cfgs[len(cfgs)-1], nest(d, wval{K: "atom", S: "x"}))
 		valCase(cfgs[1], nest(d, wval{K: "list"}))
+	}
+	// nesting in which every level also holds an empty list in front of the nested one: the
+	// empty lists must not move the depth counter either way
+	nestWithEmpties := func(n int, leaf wval) wval {
+		v := leaf
+		for i := 0; i < n; i++ {
+			v = wval{K: "list", L: []wval{{K: "list"}, v}}
+		}
+		return v
+	}
+	for _, d := range []int{3, 500, 999, 1000, 1001, 1500} {
+		valCase(cfgs[len(cfgs)-1], nestWithEmpties(d, wval{K: "atom", S: "x"}))
+	}
+	// many empty lists first, then a legal nesting: the counter must be back where it started
+	{
+		var items []wval
+		for i := 0; i < 1200; i++ {
+			items = append(items, wval{K: "list"})
+		}
+		items = append(items, nest(5, wval{K: "atom", S: "x"}))
+		valCase(cfgs[1], wval{K: "list", L: items})
 	}
 	// ---- decoder on mutated and raw inputs ----
 	seeds := []string{`"a\"b" x`, "{3}\r\nabc x", "{3+}\r\nabc x", "{3} \r\nabc", "{3}\nabc", "{99999999999999999999}\r\n", "{3}\r\nab", "{0}\r\n x", "{-1}\r\n", "{3+\r\nabc", "NIL x", "nil x", "NILx ", `"abc`, `"ab\`, "atom", "atom ", "ato(m", "4294967295 ", "4294967296 ", "007 ", "9223372036854775807 ", "9223372036854775808 ", "18446744073709551615 ", "18446744073709551616 ", "1:3,5 ", "$ ", "1:* ", "0 ", "1,,2 ", `\Seen `, `\* `, `\ `, `\`, `Seen)`, " x", " \r\n", "  x", "(a", "\r\n", " \r\n", "\n", "\rx", "x", "()", "(a b (c \"d\") {1}\r\nz) ", "((((", "(a  b)", "(a b", "inbox ", "INBOX ", `"&AOk-" `, `"&AOk" `, "&AOk- ", "a&b "}
